@@ -36,6 +36,8 @@ JudgeWp(e) ==
   LET k == KindOf(e) IN
   (IF e.i = 1 /\ ~e.is_start THEN {"C12:path-does-not-begin-at-the-start-configuration"} ELSE {})
   \cup (IF NextSt(k) = "bad" /\ st # "bad" THEN {"C12:flags-out-of-order"} ELSE {})
+  \cup (IF Has(e, "LIN_INTERP") /\ (Has(e, "TRACE") \/ Has(e, "PARK") \/ Has(e, "LAND") \/ Has(e, "ONBOARDING"))
+        THEN {"C12:interpolated-waypoint-carries-the-flag-of-an-original-pose"} ELSE {})
   \cup (IF e.collides THEN {"C12:colliding-waypoint"} ELSE {})
   \cup (IF ~OnArcVec(e.from, e.to, e.q, N_AU) /\ EndDistVec(e.from, e.to, e.q, N_AU) >= BandLim THEN {"C12:waypoint-outside-limits"} ELSE {})
   \cup (IF k \in {"LAND", "TRACE", "PARK"} /\ e.fk_nm > 1100 THEN {"C12:original-pose-not-reproduced"} ELSE {})
